@@ -52,6 +52,35 @@ static std::string heap_selftest() {
 
 using namespace verif;
 
+// ---- close() fault injection (fd sub) ---------------------------------------------------------------
+// The executable's close() overrides libc's for the statically linked tbox libraries (and for everybody else in the
+// process: ASan, libFuzzer, rapidcheck).  It is transparent except for descriptor NUMBERS the running case has
+// registered: for those it counts the real close() calls, and - armed by the case for one number - it performs the
+// real close and then reports EINTR (on Linux the descriptor is gone at that point), optionally opening a bystander
+// descriptor in between, which normally receives the number that has just become free.
+#include <sys/syscall.h>
+namespace c08fault {
+const int kMax = 4096;
+bool watch[kMax]; int closes[kMax];
+int inject_fd = -1; bool inject_reopen = false;
+int bystander_fd = -1; bool fired = false; int fired_fd = -1;
+void reset() { for (int i = 0; i < kMax; ++i) { watch[i] = false; closes[i] = 0; } inject_fd = -1; inject_reopen = false; bystander_fd = -1; fired = false; fired_fd = -1; }
+inline bool watched(int fd) { return fd >= 0 && fd < kMax && watch[fd]; }
+}
+extern "C" int close(int fd) {
+  int ret = (int)syscall(SYS_close, fd);
+  if (c08fault::watched(fd)) {
+    ++c08fault::closes[fd];
+    if (c08fault::inject_fd == fd) {
+      c08fault::inject_fd = -1; c08fault::fired = true; c08fault::fired_fd = fd;
+      if (c08fault::inject_reopen && c08fault::bystander_fd < 0) c08fault::bystander_fd = (int)syscall(SYS_openat, AT_FDCWD, "/dev/null", O_RDONLY | O_CLOEXEC);
+      errno = EINTR;
+      return -1;
+    }
+  }
+  return ret;
+}
+
 namespace {
 
 std::string fmt(const char *f, ...) __attribute__((format(printf, 1, 2)));
@@ -890,17 +919,18 @@ VERIF_REGISTER(&def);
 namespace fdh {
 using tbox::util::Fd;
 
-enum { CONSTRUCT, COPY, MOVE, COPYASSIGN, MOVEASSIGN, SWAP, RESET, CLOSE, DESTROY, CHAIN, NOPS };
+enum { CONSTRUCT, COPY, MOVE, COPYASSIGN, MOVEASSIGN, SWAP, RESET, CLOSE, DESTROY, CHAIN, INJECT, NOPS };
 const int kSlots = 6;
 const size_t kMaxReal = 8;
 
 struct Cell { int fd = -1; bool real = false; int refs = 0; bool closed = false; };
 struct Slot { std::unique_ptr<Fd> h; int cell = -1; int depth = 0; };
 struct Rec { std::vector<int> calls; };
-struct Flags { bool chain3_last_release = false, explicit_close_shared = false, self_assign = false, real_fd = false, last_release_by_assign = false, close_then_release = false; int max_refs = 0; };
+struct Flags { bool eintr = false, eintr_recycled = false, eintr_armed = false; bool chain3_last_release = false, explicit_close_shared = false, self_assign = false, real_fd = false, last_release_by_assign = false, close_then_release = false; int max_refs = 0; };
 
 struct Ctx {
   Slot s[kSlots];
+  std::vector<Slot> bystanders;          // unrelated handles adopted for descriptors opened by the close() interposer
   std::vector<Cell> cells;
   Rec rec;
   std::vector<int> expect_fake, expect_real;   // descriptors that the current step must close
@@ -950,8 +980,27 @@ std::string settle(Ctx &x, const char *after, size_t step) {
       return fmt("step %zu %s: descriptor %d was %s", step, after, v, std::count(got.begin(), got.end(), v) ? "closed more than once" : "not closed although it was explicitly closed / its last handle went away");
     return fmt("step %zu %s: close calls differ from the model", step, after);
   }
-  for (int fd : x.expect_real) if (fd_is_open(fd)) return fmt("step %zu %s: real descriptor %d is still open after its last handle went away / close()", step, after, fd);
+  for (int fd : x.expect_real) {
+    // counted BEFORE anything else looks at the number: it may already belong to the bystander
+    if (c08fault::watched(fd) && c08fault::closes[fd] != 1)
+      return fmt("step %zu %s: %d real close() calls on descriptor %d, which its handle had to close exactly once%s", step, after, c08fault::closes[fd], fd,
+                 c08fault::fired_fd == fd ? " (the first close() reported EINTR after closing the descriptor)" : "");
+    if (fd >= 0 && fd < c08fault::kMax) { c08fault::watch[fd] = false; c08fault::closes[fd] = 0; }
+  }
+  if (c08fault::fired) { x.f.eintr = true; c08fault::fired = false; }
+  int by = c08fault::bystander_fd; c08fault::bystander_fd = -1;
+  if (by >= 0) {
+    // the descriptor opened while close() was "interrupted" becomes an unrelated plain handle of its own
+    if (by == c08fault::fired_fd) x.f.eintr_recycled = true;
+    Cell c; c.fd = by; c.real = true; x.cells.push_back(c);
+    Slot sl; sl.h.reset(new Fd(by)); x.bystanders.push_back(std::move(sl));
+    x.attach(x.bystanders.back(), (int)x.cells.size() - 1, 0);
+    if (by < c08fault::kMax) { c08fault::watch[by] = true; c08fault::closes[by] = 0; }
+  }
+  for (int fd : x.expect_real) if (fd != by && fd_is_open(fd)) return fmt("step %zu %s: real descriptor %d is still open after its last handle went away / close()", step, after, fd);
   x.rec.calls.clear(); x.expect_fake.clear(); x.expect_real.clear();
+  for (auto &c : x.cells) if (c.real && c.refs > 0 && !c.closed && c08fault::watched(c.fd) && c08fault::closes[c.fd] != 0)
+    return fmt("step %zu %s: %d real close() calls on descriptor %d while %d handles still share it", step, after, c08fault::closes[c.fd], c.fd, c.refs);
   for (auto &c : x.cells) if (c.real && c.refs > 0 && !c.closed && !fd_is_open(c.fd)) return fmt("step %zu %s: real descriptor %d was closed while %d handles still share it", step, after, c.fd, c.refs);
   for (int i = 0; i < kSlots; ++i) {
     Slot &sl = x.s[i];
@@ -971,6 +1020,8 @@ void destroy_slot(Ctx &x, Slot &sl, bool by_assign = false) {
 void ensure(Ctx &, Slot &sl) { if (!sl.h) { sl.h.reset(new Fd()); sl.cell = -1; sl.depth = 0; } }
 
 std::string body(const Scenario &s, Flags &out) {
+  c08fault::reset();
+  struct Disarm { ~Disarm() { c08fault::reset(); } } disarm;   // nothing stays watched or armed after the case, whatever its outcome
   Ctx x;
   std::shared_ptr<int> guard = std::make_shared<int>(0);   // captured by every close function: leaked functions show up in the heap balance
   Rec *rec = &x.rec;
@@ -994,6 +1045,7 @@ std::string body(const Scenario &s, Flags &out) {
             if (kind == 4) { a.h.reset(new Fd(Fd::Open("/dev/null", O_RDONLY))); c.fd = a.h->get(); }
             else { c.fd = ::open("/dev/null", O_RDONLY | O_CLOEXEC); if (kind == 2) a.h.reset(new Fd(c.fd)); else a.h.reset(new Fd(c.fd, Fd::CloseFunc())); }
             if (c.fd < 0) return "harness: cannot open /dev/null";
+            if (c.fd < c08fault::kMax) { c08fault::watch[c.fd] = true; c08fault::closes[c.fd] = 0; }
             break; }
           case 5: a.h.reset(new Fd()); break;
           case 6: c.fd = -1; a.h.reset(new Fd(-1, closer)); break;
@@ -1046,6 +1098,13 @@ std::string body(const Scenario &s, Flags &out) {
       case RESET: name = "after reset"; if (!a.h) continue; a.h->reset(); x.release(a.cell, a.depth, false); a.cell = -1; a.depth = 0; break;
       case CLOSE: name = "after close"; if (!a.h) continue; a.h->close(); x.model_close(a.cell); break;
       case DESTROY: name = "after destroy"; if (!a.h) continue; destroy_slot(x, a); break;
+      case INJECT: { name = "after arming the close() fault";
+        // the next close() of one open plain descriptor really closes it and then reports EINTR; arg1: open a bystander in between
+        int start = (int)op.in(0, 0, kSlots - 1);
+        for (int i = 0; i < kSlots; ++i) { Slot &sl = x.s[(start + i) % kSlots];
+          if (sl.h && sl.cell >= 0 && x.cells[sl.cell].real && !x.cells[sl.cell].closed && x.real_open() < kMaxReal) {
+            c08fault::inject_fd = x.cells[sl.cell].fd; c08fault::inject_reopen = op.in(1, 0, 3) != 0; x.f.eintr_armed = true; break; } }
+        break; }
       case CHAIN: { name = "after a chain of temporaries";
         // t0 copies the handle, every further temporary is produced from its predecessor by copy-construction,
         // copy-assignment or move; optionally the named handle is destroyed first, so that the scope exit of
@@ -1078,6 +1137,12 @@ std::string body(const Scenario &s, Flags &out) {
     destroy_slot(x, x.s[i]);
     e = settle(x, "final destruction of the handles", s.ops.size()); if (!e.empty()) return e;
   }
+  while (!x.bystanders.empty()) {
+    Slot &sl = x.bystanders.back();
+    if (sl.h->get() != x.model_get(sl)) return fmt("final: bystander handle get()=%d, model %d", sl.h->get(), x.model_get(sl));
+    destroy_slot(x, sl); x.bystanders.pop_back();
+    e = settle(x, "final destruction of a bystander handle", s.ops.size()); if (!e.empty()) return e;
+  }
   for (auto &c : x.cells) if (c.refs != 0) return "harness: model reference count not zero at the end";
   out = x.f;
   return "";
@@ -1087,6 +1152,9 @@ std::string run(const Scenario &s, CaseInfo &info) {
   Flags f;
   std::string e = with_leak_check("fd", [&] { return body(s, f); });
   if (!e.empty()) return e;
+  info.cls_if(f.eintr_armed, "close_fault_armed");
+  info.cls_if(f.eintr, "close_reports_EINTR_after_closing");
+  info.cls_if(f.eintr_recycled, "EINTR_and_number_recycled_by_bystander");
   info.cls_if(f.chain3_last_release, "chain>=3_ending_in_last_release");
   info.cls_if(f.explicit_close_shared, "explicit_close_of_shared_descriptor");
   info.cls_if(f.close_then_release, "last_release_after_explicit_close");
@@ -1100,8 +1168,8 @@ std::string run(const Scenario &s, CaseInfo &info) {
 
 SubDef def = [] {
   SubDef d; d.name = "fd";
-  d.op_names = {"construct", "copy", "move", "copyassign", "moveassign", "swap", "reset", "close", "destroy", "chain"};
-  d.op_arity = {2, 2, 2, 2, 2, 2, 1, 1, 1, 4};
+  d.op_names = {"construct", "copy", "move", "copyassign", "moveassign", "swap", "reset", "close", "destroy", "chain", "inject"};
+  d.op_arity = {2, 2, 2, 2, 2, 2, 1, 1, 1, 4, 2};
   d.nt_rule = "a descriptor is closed by the last release of a handle that is at least three copy/move/assign hops away from the constructed one";
   d.run = run;
 #ifndef VERIF_ENGINE_FUZZ
@@ -1120,7 +1188,10 @@ SubDef def = [] {
       {4, mkop(DESTROY, {sl})},
       {2, mkop(CHAIN, {sl, range(1, 6), range(0, 2), range(0, 1)})},
     });
-    return scenarioOf(rc::gen::just(std::vector<Op>()), opsOf(opg));
+    // about one case in four arms the close() fault once, early in the history
+    auto head = rc::gen::weightedOneOf<std::vector<Op>>({{3, rc::gen::just(std::vector<Op>())},
+      {1, fixedOps({mkop(CONSTRUCT, {sl, range(2, 4)}), opg, mkop(INJECT, {sl, range(0, 3)})})}});
+    return scenarioOf(head, opsOf(opg));
   };
 #endif
   return d;
